@@ -152,10 +152,45 @@ impl Target {
 pub broadcast axiom fn axiom_strref_key_model()
     ensures #[trigger] obeys_key_model::<&String>();
 
-/// `Config::load_project` (A-yaml: serde_yaml parsing and the name regexes are not modelled)
+/// a project or target name is acceptable: `^\w[-\w]*$` (regex crate: A-yaml; in particular no `:`, `/` or `.`)
+pub uninterp spec fn valid_name(s: Seq<char>) -> bool;
+/// `is_valid_target_name` / `is_valid_project_name`: real signatures, the regex match is assumed (fingerprinted)
+//@fn src/config/yaml/mod.rs is_valid_target_name assumed ret=r
+//@contract
+    ensures r == valid_name(target_name@),
+//@end
+//@fn src/config/yaml/mod.rs is_valid_project_name assumed ret=r
+//@contract
+    ensures r == valid_name(project_name@),
+//@end
+/// `File::open(project_dir/zinoma.yml)` + `serde_yaml::from_reader` (A-yaml: parsing is not modelled)
 #[verifier::external_body]
-pub fn load_project(project_dir: &PathBuf) -> (r: Result<Project>)
+pub fn read_project_file(project_dir: &PathBuf) -> (r: Result<Project>)
 { unimplemented!() }
+/// `project.targets.keys().find(closure)` for the closure `not_valid_target` (A-all: the first key for which the
+/// closure is true, None when it is false for every key)
+#[verifier::external_body]
+pub fn find_invalid_target_name(project: &Project) -> (r: Option<&String>)
+    ensures
+        r matches Some(k) ==> project.targets@.contains_key(*k) && !valid_name(k@),
+        r is None ==> forall|k: String| #![trigger project.targets@.contains_key(k)] project.targets@.contains_key(k) ==> valid_name(k@),
+{ unimplemented!() }
+
+//@fn src/config/yaml/mod.rs Config::load_project#closure0 as=not_valid_target params=`target_name: &String` rty=`bool` ret=r
+//@contract
+    ensures /*[C14.names-valid]*/ r == !valid_name(target_name@),
+//@end
+
+/// [C14.names-valid] a project is accepted only if its own name and every target name is acceptable
+//@fn src/config/yaml/mod.rs Config::load_project ret=r
+//@replace `project_dir: &Path` => `project_dir: &PathBuf` rule=R11 pre why=`std::path::Path and PathBuf are both the prelude's opaque PathBuf in this unit`
+//@replace `        let config_file_path = project_dir.join("zinoma.yml");\n        let config_file = File::open(&config_file_path).with_context(|| {\n            format!("Failed to open config file {}", config_file_path.display())\n        })?;\n        let project: Project = serde_yaml::from_reader(config_file)\n            .with_context(|| format!("Invalid format for {}", config_file_path.display()))?;` => `        let project: Project = read_project_file(project_dir)?;\n\n\n\n\n` rule=R15 pre why=`opening and parsing zinoma.yml -> prelude stub (A-yaml)`
+//@closure 0 skeleton=`if let Some(invalid_target_name) = project .targets .keys() .find(<CLOSURE>) { return Err(anyhow!( "{} is not a valid target name", invalid_target_name )); }` becomes=`if let Some(invalid_target_name) = find_invalid_target_name(&project) { return Err(anyhow_error()); }`
+//@contract
+    ensures
+        /*[C14.names-valid]*/ r matches Ok(p) ==> (p.name matches Some(n) ==> valid_name(n@)),
+        /*[C14.names-valid]*/ r matches Ok(p) ==> forall|k: String| #![trigger p.targets@.contains_key(k)] p.targets@.contains_key(k) ==> valid_name(k@),
+//@end
 /// [C18.canonical] the path is the canonical name of its directory: absolute, no `.`/`..`, links resolved - one
 /// name per directory, whichever way it was reached (A-fs: this is what `dunce::canonicalize` returns)
 pub uninterp spec fn is_canonical(p: PathBuf) -> bool;
